@@ -9,6 +9,8 @@
 //! * `shm`: the shared-memory block through which a forked run reports to its parent.
 //! * `alloc`: the global allocator wrapper (no-alloc-in-handler oracle, poison + quarantine).
 
+#![feature(coerce_unsized, unsize, dispatch_from_dyn)] // (+ arbitrary_self_types from the build's -Zcrate-attr)
+
 pub mod alloc;
 pub mod hook;
 pub mod rng;
